@@ -158,7 +158,7 @@ def run_tlc(module: str, cfg: Path, *, workers=1, tag="run", simulate=None, dept
     meta = WORK / "tlc" / uniq
     meta.mkdir(parents=True, exist_ok=True)
     out_path = Path(out_path) if out_path else WORK / "tlc" / f"{uniq}.out"
-    cmd = ["java", "-XX:+UseParallelGC", f"-Xmx{heap}", "-cp", JAR, "tlc2.TLC", "-workers", str(workers),
+    cmd = ["java", "-XX:+UseParallelGC", f"-Xmx{heap}", f"-Djava.io.tmpdir={meta}", "-cp", JAR, "tlc2.TLC", "-workers", str(workers),
            "-metadir", str(meta), "-noGenerateSpecTE", "-config", str(cfg)]
     if simulate:
         cmd += ["-simulate", simulate]
